@@ -405,7 +405,7 @@ void f_lsh () {
   CHECK_TYPES ((sp - 1), T_NUMBER, 1, F_LSH);
   CHECK_TYPES (sp, T_NUMBER, 2, F_LSH);
   sp--;
-  sp->u.number <<= (sp + 1)->u.number;
+  sp->u.number = LPC_INT_LSH (sp->u.number, (sp + 1)->u.number);
 }
 
 void f_lsh_eq () {
@@ -416,7 +416,7 @@ void f_lsh_eq () {
     error ("Bad left type to <<=\n");
   if ((--sp)->type != T_NUMBER)
     error ("Bad right type to <<=\n");
-  sp->u.number = argp->u.number <<= sp->u.number;
+  sp->u.number = argp->u.number = LPC_INT_LSH (argp->u.number, sp->u.number);
   sp->subtype = 0;
 }
 
@@ -854,7 +854,7 @@ void f_rsh () {
   CHECK_TYPES ((sp - 1), T_NUMBER, 1, F_RSH);
   CHECK_TYPES (sp, T_NUMBER, 2, F_RSH);
   sp--;
-  sp->u.number >>= (sp + 1)->u.number;
+  sp->u.number = LPC_INT_RSH (sp->u.number, (sp + 1)->u.number);
 }
 
 void f_rsh_eq () {
@@ -864,7 +864,7 @@ void f_rsh_eq () {
     error ("Bad left type to >>=\n");
   if ((--sp)->type != T_NUMBER)
     error ("Bad right type to >>=\n");
-  sp->u.number = argp->u.number >>= sp->u.number;
+  sp->u.number = argp->u.number = LPC_INT_RSH (argp->u.number, sp->u.number);
   sp->subtype = 0;
 }
 
